@@ -151,6 +151,53 @@ func runRegistry(a *Analyzer, r *Results) {
 		if nCancel == 0 || nDel == 0 || nStore == 0 {
 			r.Undecided = append(r.Undecided, fmtf("CancelOlderThan: cancel=%d delete=%d watermark-store=%d sites found (each expected >= 1)", nCancel, nDel, nStore))
 		}
+		// K2.always: whatever the table holds, the call leaves the watermark at or above its argument: every path to a
+		// return stores the watermark or passes the "watermark is not older than the argument" outcome of its test
+		{
+			c := a.NewFCtx(fn, a.EntryEnv(fn, nil), 0)
+			olderKey := older(newest, hv).Key()
+			type st struct {
+				b  *ssa.BasicBlock
+				ok bool
+			}
+			seen := map[st]bool{}
+			bad := ""
+			var walk func(b *ssa.BasicBlock, ok bool)
+			walk = func(b *ssa.BasicBlock, ok bool) {
+				if seen[st{b, ok}] || bad != "" {
+					return
+				}
+				seen[st{b, ok}] = true
+				for _, in := range b.Instrs {
+					switch x := in.(type) {
+					case *ssa.Store:
+						if a.addrLoc(x.Addr) == "state.ViewContexts.newestHvCanceledOlder" {
+							ok = true
+						}
+					case *ssa.Return:
+						if !ok {
+							bad = a.P.InstrPos(in)
+						}
+						return
+					case *ssa.Panic:
+						return
+					}
+				}
+				ifi, isIf := b.Instrs[len(b.Instrs)-1].(*ssa.If)
+				for si, sx := range b.Succs {
+					ok2 := ok
+					if isIf && si == 1 {
+						if t := unfreeze(c.Term(ifi.Cond)); t.Key() == olderKey {
+							ok2 = true // the watermark is not older than the argument
+						}
+					}
+					walk(sx, ok2)
+				}
+			}
+			walk(fn.Blocks[0], false)
+			r.Check("K2.always", props("C15"), "CancelOlderThan always leaves the watermark at or above its argument (also when nothing is registered): no context can afterwards be issued for a superseded position", "CancelOlderThan", a.P.Pos(fn.Pos()), bad == "",
+				"a path reaches the return at "+bad+" without storing the watermark or finding it not older than the argument", "P")
+		}
 		// every cancel is followed by the delete of the same entry
 		for _, b := range fn.Blocks {
 			for _, in := range b.Instrs {
